@@ -36,12 +36,12 @@ def hostile_docs(rng, prog, kind, h, ct, others):
     out.append(("dupkey-top-bad-last", "{" + dumps(n) + ":" + body + "," + dumps(n) + ":7}"))
     if h["args"]:
         a0 = h["args"][0]
-        out.append(("dupkey-body", "{" + dumps(n) + ":{" + dumps(a0["name"]) + ":" + ct[0] + "," + body[1:] + "}"))
+        out.append(("dupkey-body", "{" + dumps(n) + ":{" + dumps(T.arg_key(a0)) + ":" + ct[0] + "," + body[1:] + "}"))
         # missing field / wrong-typed field / extra field
-        rest = "{" + ",".join(dumps(a["name"]) + ":" + c for a, c in list(zip(h["args"], ct))[1:]) + "}"
+        rest = "{" + ",".join(dumps(T.arg_key(a)) + ":" + c for a, c in list(zip(h["args"], ct))[1:]) + "}"
         out.append(("missing-field", "{" + dumps(n) + ":" + rest + "}"))
         wrong = dumps(prog["types"][a0["ti"]].wrong(rng))
-        wbody = "{" + ",".join(dumps(a["name"]) + ":" + (wrong if i == 0 else c) for i, (a, c) in enumerate(zip(h["args"], ct))) + "}"
+        wbody = "{" + ",".join(dumps(T.arg_key(a)) + ":" + (wrong if i == 0 else c) for i, (a, c) in enumerate(zip(h["args"], ct))) + "}"
         out.append(("wrong-typed-field", "{" + dumps(n) + ":" + wbody + "}"))
     out.append(("extra-field", "{" + dumps(n) + ":" + body[:-1] + ("," if h["args"] else "") + "\"zz_extra\":1}}"))
     out.append(("array-body", "{" + dumps(n) + ":[" + ",".join(ct) + "]}"))
